@@ -189,7 +189,17 @@ def judge_arith(calls, workers=8, heap_mb=2048, timeout=1800):
 _INTR = re.compile(r'^"<<\\"INTR\\", (\d+), \{(.*)\}>>"\s*$', re.M)
 
 
-def judge_intr(recs, workers=8, heap_mb=1024, timeout=900):
+def judge_intr(recs, workers=8, heap_mb=1024, timeout=900, chunk=20000):
+    if len(recs) > chunk:
+        out, res = {}, None
+        for lo in range(0, len(recs), chunk):
+            o, r = judge_intr(recs[lo:lo + chunk], workers, heap_mb, timeout, chunk)
+            out.update(o)
+            if res is None:
+                res = r
+            else:
+                res = dict(r, distinct=res['distinct'] + r['distinct'], states=res['states'] + r['states'], wall=res['wall'] + r['wall'], out=res['out'][-20000:] + r['out'])
+        return out, res
     tmp = tempfile.mkdtemp(prefix='vtr-')
     try:
         path = os.path.join(tmp, 'recs.ndjson')
